@@ -298,6 +298,36 @@ pub fn for_each_program(cfg: &Cfg, rep: &mut Report, spec: &StreamSpec, mut f: i
         let p = Program { idx, pattern: engine::to_cps(&out.pattern), flags, mentioned: out.mentioned, source: "struct" };
         run_one(p, rep);
     }
+    // 4. short class ranges that begin / end next to a case-related code point, under i with and
+    // without u/v (the case closure of a class walks compressed fold tables from arbitrary range
+    // ends); the haystack alphabet is the whole case orbit of that code point plus the range ends.
+    if spec.templates {
+        let mut rng = Rng::new(cfg.seed ^ 0xF01D_4A46);
+        let related: Vec<u32> = (0xB5u32..0x1F000).filter(|&c| char::from_u32(c).is_some() && gen::partners(c).len() > 1).collect();
+        // C01 walks every case-related code point with every start offset 0..=3 and end offset 0..=1;
+        // the other differential checks take a seeded sample.
+        let all = FOLDRANGE_ALL.load(std::sync::atomic::Ordering::Relaxed);
+        let n = if all { related.len() * 8 } else { cfg.scaled(if cfg.quick() { 240 } else { 6000 }) };
+        for k in 0..n {
+            idx += 1;
+            let (c, d, e) = if all { (related[k / 8], (k % 8 / 2) as u32, (k % 2) as u32) } else { (*rng.pick(&related), rng.range(0, 4) as u32, rng.range(0, 3) as u32) };
+            let lo = c - d;
+            let hi = c + e;
+            let (Some(lc), Some(hc)) = (char::from_u32(lo), char::from_u32(hi)) else { continue };
+            let neg = rng.chance(1, 4);
+            let fl4 = ["iu", "i", "iv", "iu"];
+            let flags = Flags::from_str(if all { fl4[(d as usize + cfg.seed as usize) % 4] } else { *rng.pick(&fl4) });
+            let pat = format!("[{}{}-{}]", if neg { "^" } else { "" }, lc, hc);
+            let mut mentioned = gen::partners(c);
+            mentioned.retain(|&x| x != c);
+            mentioned.insert(0, c);
+            mentioned.truncate(4);
+            mentioned.push(lo);
+            mentioned.push(hi);
+            let p = Program { idx, pattern: engine::to_cps(&pat), flags, mentioned, source: "foldrange" };
+            run_one(p, rep);
+        }
+    }
 }
 
 fn mentioned_guess(pat: &str) -> Vec<u32> {
@@ -307,6 +337,9 @@ fn mentioned_guess(pat: &str) -> Vec<u32> {
     v.truncate(4);
     v
 }
+
+/// Set by C01: enumerate the case-related class ranges exhaustively (see `programs`, section 4).
+pub static FOLDRANGE_ALL: std::sync::atomic::AtomicBool = std::sync::atomic::AtomicBool::new(false);
 
 /// Haystacks for a program: all strings up to a length bound over its relevant alphabet, plus
 /// random longer ones with varied alignment.
